@@ -1209,7 +1209,7 @@ def run(ctx):
         "unitaries (orbit + signed permutations + perturbed permutations + DFT) x 8 mesh routines": n_unitaries,
         "symplectic orbit elements -> bloch_messiah": n_sympl,
         "S D S^T -> williamson": n_sym_wil,
-        "A . S0(.4) S1(.4 + gap) . B near-degenerate squeezers -> bloch_messiah": n_symb,
+        "A . S0(r1) S1(r2) . B rounding/tolerance-boundary squeezers -> bloch_messiah": n_symb,
         "symmetric alphabet matrices x variants (exact, 2 patterns of 1e-14, 1 of 1e-12) -> takagi": n_tak_calls,
         "distinct symmetric alphabet matrices": n_tak,
         "graphs x 2 means -> graph_embed": 2 * n_graphs,
